@@ -33,6 +33,9 @@ pub struct Scn {
     /// 0..2 workers die and are replaced, one after the other, before the recorded history starts (the accept thread's
     /// handle list is then no longer in index order, the second fault hits a handle that has moved)
     pub prior_faults: usize,
+    /// right before the stop every service instance of listener 0 turns not-ready (noticed by a worker when the next
+    /// connection reaches it): the burst that follows is dispatched to workers that park it in their queues
+    pub unready_at_stop: bool,
 }
 
 impl Scn {
@@ -56,6 +59,7 @@ impl Scn {
             graceful: r.chance(1, 2),
             failpoints: r.chance(2, 3),
             prior_faults: if r.chance(1, 4) { 1 + r.usize(2) } else { 0 },
+            unready_at_stop: r.chance(1, 4),
         }
     }
     pub fn to_json(&self) -> Value {
@@ -63,8 +67,8 @@ impl Scn {
     }
     pub fn shape(&self) -> String {
         format!(
-            "w{} l{} {:?} {:?} t{}x{} pr{} g{} f{} pf{}",
-            self.workers, self.limit, self.listeners, self.rt, self.client_threads, self.conns_per_thread, self.pause_resume as u8, self.graceful as u8, self.failpoints as u8, self.prior_faults
+            "w{} l{} {:?} {:?} t{}x{} pr{} g{} f{} pf{} u{}",
+            self.workers, self.limit, self.listeners, self.rt, self.client_threads, self.conns_per_thread, self.pause_resume as u8, self.graceful as u8, self.failpoints as u8, self.prior_faults, self.unready_at_stop as u8
         )
     }
 }
@@ -84,6 +88,7 @@ pub struct Seen {
     pub failpoint_hits: u64,
     pub pause_resume_cycles: u64,
     pub prior_fault_preludes: u64,
+    pub unready_at_stop: u64,
 }
 
 pub enum Outcome {
@@ -329,6 +334,15 @@ pub fn run_scenario(scn: &Scn, seen: &mut Seen) -> Outcome {
     }
 
     // ---- stop while connections are still queued / in progress
+    if scn.unready_at_stop {
+        // the services stop answering "ready": a worker finds out when the next connection wakes it, parks in its
+        // not-ready state and leaves that connection (and those dispatched after it) in its queue
+        let ids: Vec<u64> = run.ctls[0].inner.lock().unwrap().instances.keys().copied().collect();
+        for i in ids {
+            run.ctls[0].set_script_quiet(i, &[engine::ReadyStep::Pending]);
+        }
+        seen.unready_at_stop += 1;
+    }
     // add a burst that will be queued behind the limit
     let mut r = Rng::new(scn.seed ^ 0x99);
     for _ in 0..(1 + r.usize(4)) {
